@@ -12,6 +12,8 @@ pub mod rules;
 pub mod settings;
 pub mod shutdown;
 pub mod utils;
+#[cfg(feature = "verif")]
+pub mod verif;
 
 mod datagram_pipe;
 mod direct_forwarder;
